@@ -257,3 +257,11 @@ Proof.
   cbn [kstep]. rewrite Hn, Hf, Hfu, Hiu, Hm, Hac, Hgc.
   destruct a; [congruence|]; destruct g; [congruence|]; reflexivity.
 Qed.
+
+(* a rank that restores its own factor-less state (load_state_dict(state_dict(include_factors=False))): nothing changes, nothing is emitted *)
+Lemma own_factorless_state_is_noop_l : forall cfg s comp,
+  kstep cfg [saved_of s false] s (Load 0 comp) = (s, []).
+Proof.
+  intros cfg s comp. destruct s as [st f i mi ac gc a g iv]. unfold saved_of. cbn.
+  destruct f, i; cbn; reflexivity.
+Qed.
